@@ -307,15 +307,20 @@ def _transforms(ctx, ft, pr, config):
         tol = tol_for(c)
         zero_shift = (shift[0] == 0 and shift[1] == 0)
         nontriv = not (m == n == M == N == 1)
-        tag = (f'par{m % 2}{n % 2}->{M % 2}{N % 2}/{"sq" if m == n else "ns"}/'
-               f'{"Q1" if Q == 1 else "Qint" if isinstance(Q, int) else "Qpair" if isinstance(Q, tuple) else "Qfrac"}/'
-               f'{"s0" if zero_shift else "sfrac" if any(float(s) != int(s) for s in shift) else "sint"}/'
-               f'{c["dtype"]}/p{c["precision"]}/{"fwd" if c["dir"] < 0 else "inv"}')
+        # input-distribution histograms (one coarse histogram per quantifier of the property text)
+        for hk in (f'shape_parity_in->out:{m % 2}{n % 2}->{M % 2}{N % 2}', f'square:{m == n}',
+                   f'size_out_vs_in:{"smaller" if M * N < m * n else "equal" if (M, N) == (m, n) else "larger"}',
+                   'Q:' + ('1' if Q == 1 else 'integer' if isinstance(Q, int) else 'per-axis' if isinstance(Q, tuple) else
+                           'fractional<1' if Q < 1 else 'fractional'),
+                   'shift:' + ('zero' if zero_shift else 'fractional' if any(float(s_) != int(s_) for s_ in shift) else 'integer'),
+                   f'dtype:{c["dtype"]}', f'precision:{c["precision"]}', f'direction:{"fwd" if c["dir"] < 0 else "inv"}',
+                   f'argument_forms:{"tuples" if not c.get("forms") else "list/array/scalar"}'):
+            ctx.hist['transform.' + hk] += 1
         config.precision = c['precision']
         try:
             for method, model in (('mdft', md), ('czt', cz)):
                 cc = dict(c, method=method)
-                ctx.case('transform', cc, nontrivial=nontriv, tag=tag if method == 'czt' else None)
+                ctx.case('transform', cc, nontrivial=nontriv, tag=f'method:{method}')
                 if _is_known(ctx, cc):
                     continue
                 try:
@@ -529,7 +534,7 @@ def run_history(ops, ft, config, collect=None):
                 sizes.append((len(ft.mdft.Ein), len(ft.czt.components)))
                 continue
             lowp = prec == 32 if op['method'] == 'mdft' else op['dtype'] == 'complex64'
-            ok, err = close(got, want, 1e-5 if lowp else 1e-12)
+            ok, err = close(got, want, 1e-5 if lowp else 1e-10)
             if got.dtype != want.dtype:
                 fail = fail or f'op {idx}: dtype {got.dtype} on the shared executor, {want.dtype} on a fresh one'
             elif not ok:
